@@ -324,6 +324,81 @@ func SplitOps(r *Rng, data []byte, style int, flushProb int) []Op {
 	return ops
 }
 
+// bufferEdges returns absolute stream offsets at which the writers' internal buffers fill, slide or
+// hand a block to the encoder (and their neighbours), for the given setting, up to limit.
+func bufferEdges(c WCfg, limit int) []int {
+	var e []int
+	add := func(x int) {
+		for _, d := range []int{-1, 0, 1} {
+			if x+d > 0 && x+d <= limit {
+				e = append(e, x+d)
+			}
+		}
+	}
+	if c.Level == -2 {
+		for x := 65536; x <= limit+1; x += 65536 {
+			add(x)
+		}
+		return e
+	}
+	w := c.Window()
+	capacity := 2*w + 258
+	// first fill at cap, then every (w+258) bytes; interesting fills: 2w .. cap
+	for base := 0; base <= limit+capacity; base += w + 258 {
+		for _, off := range []int{2 * w, 2*w + 100, 2*w + 257, capacity, capacity - 8, capacity - 9} {
+			add(base + off)
+		}
+		if base > 6*(w+258) {
+			break
+		}
+	}
+	return e
+}
+
+// EdgeOps cuts data into Write ops at offsets taken from the buffer edges of the setting (and a few
+// random ones), inserting Flush ops at some of the cuts.
+func EdgeOps(r *Rng, c WCfg, data []byte, flushProb int) []Op {
+	edges := bufferEdges(c, len(data))
+	cut := map[int]bool{}
+	for _, x := range edges {
+		if r.Intn(3) == 0 {
+			cut[x] = true
+		}
+	}
+	for k := r.Intn(4); k > 0 && len(data) > 0; k-- {
+		cut[r.Intn(len(data)+1)] = true
+	}
+	var pos []int
+	for x := range cut {
+		if x > 0 && x < len(data) {
+			pos = append(pos, x)
+		}
+	}
+	sortInts(pos)
+	var ops []Op
+	prev := 0
+	for _, x := range append(pos, len(data)) {
+		ops = append(ops, Op{K: "W", D: HexB(append([]byte{}, data[prev:x]...))})
+		if r.Intn(7) == 0 {
+			ops = append(ops, Op{K: "W", D: HexB{}})
+		}
+		if flushProb > 0 && x != len(data) && r.Intn(100) < flushProb {
+			ops = append(ops, Op{K: "F"})
+		}
+		prev = x
+	}
+	return ops
+}
+
+// EdgeSize returns a payload size at (or next to) a buffer edge of the setting.
+func EdgeSize(r *Rng, c WCfg, max int) int {
+	e := bufferEdges(c, max)
+	if len(e) == 0 {
+		return r.Intn(max + 1)
+	}
+	return e[r.Intn(len(e))]
+}
+
 func opsData(ops []Op) []byte {
 	var b []byte
 	for _, o := range ops {
